@@ -60,17 +60,19 @@ func parentGoID() uint64 {
 // Simulator
 
 type actor struct {
-	gid      uint64
-	parent   uint64
-	name     string // logical id; stable across runs and processes
-	site     string // site of the yield it is parked at
-	wake     chan struct{}
-	parked   bool
-	yields   int
-	bornStep int
-	weight   float64 // relative speed drawn by the fault plan
-	stallFor int     // steps this actor is still excluded from selection
-	prio     int     // PCT priority
+	gid       uint64
+	parent    uint64
+	name      string // logical id; stable across runs and processes
+	site      string // site of the yield it is parked at
+	wake      chan struct{}
+	parked    bool
+	yields    int
+	bornStep  int
+	weight    float64 // relative speed drawn by the fault plan
+	stallFor  int     // steps this actor is still excluded from selection
+	prio      int     // PCT priority
+	selects   uint64  // rewritten select statements executed so far
+	polledVer uint64  // state version at which this actor last polled in vain
 }
 
 // Policy names the scheduling policy of one run.
@@ -525,7 +527,10 @@ func (s *Sim) Run(caller func()) (res Result) {
 		}
 		return res
 	}
-	maxEnabled, contended, mutexSpin := 0, 0, 0
+	maxEnabled, contended := 0, 0
+	pollIdle, pollQuantum := time.Duration(0), time.Millisecond
+	var lastPoller *actor
+	version := uint64(1) // bumped whenever the state of the system may have changed
 	defer func() { res.MaxEnabled = maxEnabled; res.Contended = contended }()
 	for {
 		s.opt.WaitQuiescent()
@@ -560,23 +565,37 @@ func (s *Sim) Run(caller func()) (res Result) {
 			continue
 		}
 		idle, quantum = 0, time.Millisecond
-		// every runnable goroutine is spinning on a mutex somebody else holds: with nobody
-		// else to run that is a deadlock, not a livelock
-		allBlocked := true
+		// pollers: goroutines parked at a "...:blocked" site (a mutex somebody else holds, a
+		// rewritten select none of whose cases is ready). A poller that has just polled in
+		// vain is not eligible again until something changed — another goroutine ran, a
+		// poller got through, or simulated time passed — exactly as if it were blocked. If
+		// only such pollers are left, let simulated time pass; if that does not help within
+		// the budget, it is a deadlock.
+		if lastPoller != nil && !(lastPoller.parked && strings.HasSuffix(lastPoller.site, ":blocked")) {
+			version++ // the poller released last time got through
+			pollIdle, pollQuantum = 0, time.Millisecond
+		}
+		lastPoller = nil
+		elig := en[:0:0]
 		for _, a := range en {
-			if !strings.HasSuffix(a.site, ":blocked") {
-				allBlocked = false
-				break
+			if !strings.HasSuffix(a.site, ":blocked") || a.polledVer < version {
+				elig = append(elig, a)
 			}
 		}
-		if allBlocked {
-			mutexSpin++
-			if mutexSpin > 50*len(en) {
-				return finish("deadlock", "every runnable goroutine is waiting for a mutex that is never released")
+		if len(elig) == 0 {
+			if pollIdle >= s.opt.MaxIdleSimTime {
+				return finish("deadlock", "every runnable goroutine waits for a mutex that is never released or for a select none of whose cases ever becomes ready")
 			}
-		} else {
-			mutexSpin = 0
+			s.opt.SleepFake(pollQuantum)
+			pollIdle += pollQuantum
+			if pollQuantum < 10*time.Minute {
+				pollQuantum *= 4
+			}
+			s.note("poll-clock-advance")
+			version++
+			continue
 		}
+		en = elig
 		if s.step >= s.opt.MaxSteps {
 			return finish("livelock", fmt.Sprintf("step budget %d exhausted", s.opt.MaxSteps))
 		}
@@ -594,12 +613,14 @@ func (s *Sim) Run(caller func()) (res Result) {
 			}
 			s.pushTape(clockJumpMark | uint32(d/time.Millisecond))
 			s.doClockJump(d)
+			version++
 			continue
 		}
 		if s.opt.Replay && s.tapePos() < len(s.opt.Tape) && s.opt.Tape[s.tapePos()]&clockJumpMark != 0 {
 			d := time.Duration(s.opt.Tape[s.tapePos()]&^clockJumpMark) * time.Millisecond
 			s.pushTape(s.opt.Tape[s.tapePos()])
 			s.doClockJump(d)
+			version++
 			continue
 		}
 		var idx int
@@ -611,6 +632,13 @@ func (s *Sim) Run(caller func()) (res Result) {
 			idx = s.choose(en)
 		}
 		a := en[idx]
+		if strings.HasSuffix(a.site, ":blocked") {
+			lastPoller = a
+			a.polledVer = version
+		} else {
+			version++
+			pollIdle, pollQuantum = 0, time.Millisecond
+		}
 		s.pushTape(uint32(idx))
 		ev := Event{Step: s.step, Actor: a.name, What: "run " + a.site + " en=" + strconv.Itoa(len(en))}
 		s.logStep(ev)
@@ -657,3 +685,43 @@ func (s *Sim) ActorsParkedAt(prefix string) []string {
 }
 
 func (s *Sim) CallerDone() bool { return s.callerDone.Load() }
+
+// ZeroOf / ZeroOfRecv return the zero value of a channel's element type (used by the
+// rewritten select statements to declare their receive variables without naming types).
+func ZeroOf[C ~chan T, T any](ch C) (z T)       { return }
+func ZeroOfRecv[C ~<-chan T, T any](ch C) (z T) { return }
+
+// Select is what a select statement with several communication cases becomes under
+// simulation: each try is a non-blocking attempt of one case. The order in which they are
+// tried is derived from the run's seed, the calling actor and a per-actor counter, so the
+// choice among several ready cases is the simulator's and replays exactly. Returns the
+// index of the case that went through, or -1 for the default case.
+func Select(site string, hasDefault bool, tries ...func() bool) int {
+	s := cur.Load()
+	if s == nil {
+		panic("simrt.Select called without a running simulation")
+	}
+	g := goID()
+	s.mu.Lock()
+	a := s.byGID[g]
+	name, ctr := "?", uint64(0)
+	if a != nil {
+		name = a.name
+		a.selects++
+		ctr = a.selects
+	}
+	s.mu.Unlock()
+	r := RNG{s: mix64(s.opt.Seed) ^ HashString("select:"+name+"@"+site) ^ mix64(ctr)}
+	order := r.Perm(len(tries))
+	for {
+		for _, i := range order {
+			if tries[i]() {
+				return i
+			}
+		}
+		if hasDefault {
+			return -1
+		}
+		s.yield(site+":blocked", "")
+	}
+}
